@@ -1,4 +1,5 @@
 import IbicusModel.Props.C12
+import IbicusModel.Lemmas.GenPurity
 -- property theorems: (A) alias model
 #print axioms Props.C12.inputs_preserved
 #print axioms Props.C12.result_is_fresh
@@ -21,6 +22,7 @@ import IbicusModel.Props.C12
 #print axioms Props.C12.apply_repeatable
 #print axioms Props.C12.apply_state_fixpoint
 #print axioms Props.C12.applyLocation_state
+#print axioms Props.C12.window_normalised_at_construction
 #print axioms Props.C12.mixed_repeatable
 #print axioms Props.C12.applyLocation_repeatable
 #print axioms Props.C12.deterministic_any_draws
@@ -36,3 +38,17 @@ import IbicusModel.Props.C12
 #print axioms Lemmas.GenWriteSites.globalState
 #print axioms Lemmas.GenWriteSites.callArgs
 #print axioms Lemmas.GenWriteSites.rngSites
+-- tier A: the provenance programs regenerated from the source (Gen/Purity.lean) are accepted by the checker of Model/PurityProg
+#print axioms Lemmas.PurityProg.check_sound
+#print axioms Lemmas.PurityProg.accepted_sound
+#print axioms Lemmas.PurityProg.store_into_caller_rejected
+#print axioms Lemmas.PurityProg.checker_not_vacuous
+#print axioms Lemmas.GenPurity.gen_LinearScaling_accepted
+#print axioms Lemmas.GenPurity.gen_QuantileMapping_accepted
+#print axioms Lemmas.GenPurity.gen_ECDFM_accepted
+#print axioms Lemmas.GenPurity.gen_CDFt_accepted
+#print axioms Lemmas.GenPurity.gen_QuantileDeltaMapping_accepted
+#print axioms Lemmas.GenPurity.gen_ScaledDistributionMapping_accepted
+#print axioms Lemmas.GenPurity.gen_DeltaChange_accepted
+#print axioms Lemmas.GenPurity.gen_ISIMIP_accepted
+#print axioms Lemmas.GenPurity.gen_inputs_preserved
